@@ -65,7 +65,7 @@ func BuiltFields(fn *ssa.Function, named *types.Named) map[string]BuiltField {
 					var base string
 					Bound(func() { base = Desc(ld.X) })
 					for k := 0; k < st.NumFields(); k++ {
-						fnm := st.Field(k).Name()
+						fnm := FN(st.Field(k))
 						out[fnm] = BuiltField{Desc: base + "." + fnm, Pos: s.Pos(), From: "copy"}
 					}
 				}
